@@ -39,7 +39,9 @@ impl<'a> Remote<'a> {
 
         trace!(?state);
 
-        if state.is_scheduled() || state.is_completed() || state.is_cancelled() {
+        // A cancelled task still has to run once more so that the executor drops its
+        // future; once that happened `shared` is null and the check below returns.
+        if state.is_scheduled() || state.is_completed() {
             self.header().state.finish_scheduling();
             return;
         }
@@ -64,8 +66,10 @@ impl<'a> Remote<'a> {
             if !notified && let Some(ref waker) = shared.waker {
                 waker.wake_by_ref();
                 notified = true;
-            } else if self.header().state.load::<Strong>().is_cancelled() {
-                // Bailing out without pushing: release the reservation.
+            } else if self.header().shared.load(Ordering::Acquire).is_null() {
+                // The executor dropped the task (it is tearing down or has removed it) and
+                // will not drain the queue for us. Bailing out without pushing: release the
+                // reservation.
                 shared.pending.fetch_sub(1, Ordering::Release);
                 self.header().state.finish_scheduling();
                 return;
